@@ -5,10 +5,10 @@ import Hive.Spec.Serix
 
 Requests of one case (the case header resets the schema):
 
+* `type …`            → `ok` (selects the Go universe on the harness side; the schema follows in `def`)
 * `def SCHEMA`        → `ok wf` | `ok nowf` | `bad-schema`
 * `enc v|n VALUE`     → `ok HEX` | `err` | `panic`      (`v`: with validation)
-* `dec v|n HEX`       → `ok VALUE N [strict|sat]` | `err` | `panic`; with `v` the answer says whether the
-                         decoder that rejects out-of-range timestamps accepts the input as well
+* `dec v|n HEX`       → `ok VALUE N` | `err` | `panic`
 * `canon v|n VALUE`   → `ok VALUE` (the canonical form used by `C01_decode_encode`)
 
 Schemas and values are s-expressions, see `parseTy` / `parseVal` (and harness/serixgen/sexp.go,
@@ -187,6 +187,7 @@ def showRes {α : Type} (f : α → String) : Res α → String
 
 def stepLine (s : Option Ty) (toks : List String) : Option Ty × String :=
   match toks with
+  | "type" :: _ => (none, "ok")   -- selects the Go universe; the schema follows in `def`
   | "def" :: rest =>
     match (parseSExp (tokenize (" ".intercalate rest))).bind parseTy with
     | some t => (some t, if t.wf then "ok wf" else "ok nowf")
@@ -198,13 +199,7 @@ def stepLine (s : Option Ty) (toks : List String) : Option Ty × String :=
   | ["dec", fl, h] =>
     match s, parseFlag fl, unhex h with
     | some t, some v, some b =>
-      let r := decode t b ⟨v, false⟩
-      let extra := if v then
-          (match decode t b ⟨v, true⟩ with
-           | .ok _ => " strict"
-           | _ => " sat")
-        else ""
-      (s, showRes (fun p => s!"{showVal p.1} {p.2}{extra}") r)
+      (s, showRes (fun p => s!"{showVal p.1} {p.2}") (decode t b ⟨v, false⟩))
     | _, _, _ => (s, "bad-op")
   | "canon" :: fl :: rest =>
     match s, parseFlag fl, (parseSExp (tokenize (" ".intercalate rest))).bind parseVal with
